@@ -396,6 +396,16 @@ def verif_call(eng, st, fr, ins, name, args):
             return eng.start_unwind_here(st, fr, ins) or 'unwound'
         st.status = 'user-panicked'
         return None
+    if name == 'verif_try':
+        fa = args[0]
+        fname = eng.addr_func.get(fa) if is_conc(fa) else None
+        if fname is None:
+            raise Unsupported('verif_try of a non-function')
+        if not eng.unwind:
+            raise Unsupported('verif_try needs the unwind flavour')
+        eng.call_function(st, fname, [])
+        st.frames[-1].catch = ins.dest
+        return None
     if name == 'verif_tls_state':
         # harness helper: set the std lazy-TLS state byte of THREAD_HEAD for the current thread
         raise Unsupported('verif_tls_state')
